@@ -63,6 +63,20 @@ def apply_step(obj, st, via):
         obj.weights = [float(fr(w)) for w in st["W"]]
     elif a == "set_ctrlptsw":
         obj.ctrlptsw = [[float(x) for x in frv(p)] for p in st["Pw"]]
+    elif a == "edit_ctrlptsw":
+        pw = obj.ctrlptsw
+        pw[st["i"] - 1] = [float(x) for x in frv(st["pt"])]
+        obj.ctrlptsw = pw
+    elif a == "fork":
+        import copy
+        other = copy.deepcopy(obj)
+        if st["keep"] == "copy":        # the history continues on the copy, the original is edited
+            obj.__dict__, other.__dict__ = other.__dict__, obj.__dict__
+        _ = other.ctrlptsw, other.ctrlpts
+        other.weights = [float(fr(w)) for w in st["W"]]
+        info["fork"] = {"weights": read_view(other, "weights"), "ctrlpts": read_view(other, "ctrlpts"),
+                        "expected_weights": [float(fr(w)) for w in st["W"]],
+                        "expected_ctrlpts": [[float(x) for x in frv(q)] for q in st["P"]]}
     elif a == "read":
         info["value"] = read_view(obj, st["v"])
     elif a == "reverse":
